@@ -408,6 +408,11 @@ def run(chk):
     events = []
     uncovered, covered = [], []
     items = catalogue()
+    # building the catalogue already calls into the library (objects for the method entries): whatever that did to the process-wide
+    # settings is undone here, so that every callable below is observed from the settings the run started with and the one that
+    # changes them is named by its own observation
+    warnings.filters[:] = list(PROCESS_WARNINGS)
+    np.seterr(**PROCESS_NPERR)
     import re as _re
     by_base = {}
     for label, call, args in items:
